@@ -88,17 +88,21 @@ func (w *genericWriter) writeAndRename(tmpPath, p string, data []byte) error {
 			switch {
 			case errors.Is(pe.Err, syscall.ENOSPC):
 				err = common.ErrNoSpace
-				_ = os.RemoveAll(tmpPath)
 			case errors.Is(pe.Err, syscall.EEXIST):
 				return syscall.EEXIST
 			}
 		}
+
+		// The file is ours (it was opened exclusively), do not leave it behind:
+		// there are only few temporary names per object.
+		_ = os.RemoveAll(tmpPath)
 
 		return fmt.Errorf("write data into file %q: %w", tmpPath, err)
 	}
 
 	err = os.Rename(tmpPath, p)
 	if err != nil {
+		_ = os.RemoveAll(tmpPath)
 		return fmt.Errorf("rename file %q->%q: %w", tmpPath, p, err)
 	}
 
